@@ -9,12 +9,13 @@ from pbt import appmon
 
 ID = 'C20'
 LEVEL = 'exploration'
-RULE = ('A case is a history of 3-24 (thorough: 3-40) evaluations of the real _run_sync loop '
+RULE = ('A case is a history of 3-18 (thorough: 3-40) evaluations of the real _run_sync loop '
         'over 1-3 apps (names sharing prefixes): between evaluations the '
         'virtual clock jumps 0 s - 1 day (aimed at 299/300/301 s, 1799/1800/'
         '1801 s, 3600 s), instances die (all / some), are started by someone '
         'else, monitors are written through masterapi.update_appmonitor '
-        '(count 0-50, policy None/fifo/lifo/invalid, policy-only writes), '
+        '(count 0-50, policy None/fifo/lifo/invalid, policy-only and '
+        'count-only writes), '
         'deleted and re-created, the ZooKeeper connection flaps (SUSPENDED '
         'or LOST, then CONNECTED, no node changed; ~1 round in 10), and the '
         'instance API succeeds or fails with '
@@ -36,6 +37,10 @@ ASSUMPTIONS = [
     'treadmill.sproc.appmonitor.time; its sleep() applies the next round',
     'restclient.post is a recorder; a successful create/delete really adds/'
     'removes /scheduled nodes before the next evaluation',
+    'the model follows the configuration as the administrator issued it '
+    '(update_appmonitor count/policy, None = leave as configured; a delete '
+    'forgets both); from ZooKeeper it only observes whether the monitor '
+    'node was rewritten',
     'a write that changes the content of a monitor node starts a new budget '
     '(2*count tokens), as _monitor_data_watch does; the budget claim is per '
     'configuration',
@@ -48,7 +53,7 @@ BUDGET = {'quick': 8000, 'thorough': 160000}
 
 
 def strategy(tier):
-    return appmon.cases(max_rounds=24 if tier == 'quick' else 40)
+    return appmon.cases(max_rounds=18 if tier == 'quick' else 40)
 
 
 def execute(case, stats):
@@ -130,6 +135,24 @@ def fixed_cases():
                                   ['spawn', 'other.db', 2]]},
                 {'dt': 0, 'ops': [['reconnect', 'lost', 0]]},
                 {'dt': 0, 'ops': [['mon', web, 3, None]]},
+                {'dt': 0, 'ops': []},
+            ]}),
+        # count-only updates keep the configured policy: lifo scale-downs
+        # after update_appmonitor(count=N, policy=None), also after a
+        # policy-only update and a re-creation
+        ('count-only-update-keeps-lifo', {
+            'seq0': 7,
+            'init': [['mon', web, 4, 'lifo'], ['spawn', web, 6],
+                     ['mon', 'other.db', 2, None], ['spawn', 'other.db', 4]],
+            'rounds': [
+                {'dt': 0, 'ops': []},
+                {'dt': 0, 'ops': [['mon', web, 2, None],
+                                  ['mon', 'other.db', None, 'lifo']]},
+                {'dt': 0, 'ops': [['mon', 'other.db', 1, None]]},
+                {'dt': 0, 'ops': [['delmon', web], ['spawn', web, 3]]},
+                {'dt': 0, 'ops': [['mon', web, 3, None]]},
+                {'dt': 0, 'ops': [['mon', web, None, 'lifo'],
+                                  ['mon', web, 1, None]]},
                 {'dt': 0, 'ops': []},
             ]}),
         # monitors deleted / re-created / rewritten while apps interleave
